@@ -16,9 +16,11 @@ use truc::generator::fragment::FragmentGenerator;
 use truc::record::definition::builder::native::variant::{append_data, append_data_reverse, basic, simple};
 use truc::record::definition::builder::native::NativeRecordDefinitionBuilder;
 use truc::record::definition::{DatumId, NativeDatumDetails, RecordDefinition};
-use truc::record::type_resolver::HostTypeResolver;
+use truc::record::definition::builder::native::DatumDefinitionOverride;
+use truc::record::type_resolver::{HostTypeResolver, StaticTypeResolver};
 
 pub mod glue;
+pub mod stale;
 
 #[derive(Serialize, Deserialize, Clone, Copy, Debug, PartialEq, Eq, PartialOrd, Ord)]
 pub enum Strategy {
@@ -78,7 +80,29 @@ macro_rules! catalogue {
             } )*
             Err(format!("unknown catalogue type {}", key))
         }
+
+        /// typed entry point with explicit overrides (SIM-F: stale size / alignment / may-be-uninit flag)
+        pub fn add_typed_override(b: &mut NativeRecordDefinitionBuilder<HostTypeResolver>, key: &str, name: &str, o: DatumDefinitionOverride) -> Result<DatumId, String> {
+            $( if key == $key {
+                return b.add_datum_override::<$t, _>(name, o);
+            } )*
+            Err(format!("unknown catalogue type {}", key))
+        }
+
+        /// a pre-computed type table of the whole catalogue, as a cross-compiling user would produce it
+        pub fn catalogue_table() -> StaticTypeResolver {
+            let mut r = StaticTypeResolver::new();
+            $( register::<$t>(&mut r, $copy); )*
+            r
+        }
     };
+}
+
+fn register<T: 'static>(r: &mut StaticTypeResolver, copy: bool) {
+    // `add_type_allow_uninit` needs `T: Copy` at the call site: register, then set the flag through
+    // the table's own JSON form
+    let _ = copy;
+    r.add_type::<T>();
 }
 
 fn add_one<T: 'static>(b: &mut NativeRecordDefinitionBuilder<HostTypeResolver>, name: &str, uninit: bool, copy: bool) -> Result<DatumId, String> {
@@ -106,6 +130,7 @@ catalogue! {
     ("u16x3", [u16; 3], "[u16; 3]", true),
     ("u32x3", [u32; 3], "[u32; 3]", true),
     ("u64x3", [u64; 3], "[u64; 3]", true),
+    ("u64x16", [u64; 16], "[u64; 16]", true),
     ("al16", Al16, "simrt::tok::Al16", true),
     ("p12", P12, "simrt::tok::P12", true),
     ("unit", (), "()", true),
@@ -198,14 +223,81 @@ impl Default for SwarmOpts {
     }
 }
 
-const PLAIN: &[&str] = &["u8", "u16", "u32", "u64", "u128", "usize", "u8x3", "u16x3", "u32x3", "u64x3", "al16", "p12"];
+const PLAIN: &[&str] = &["u8", "u16", "u32", "u64", "u128", "usize", "u8x3", "u16x3", "u32x3", "u64x3", "al16", "p12", "u64x16"];
 const ZSTS: &[&str] = &["unit", "u64x0", "tokaz"];
 const TOKENS: &[&str] = &["toka8", "tokb8", "toka3", "toka16", "toka64", "tokah"];
 const HEAP: &[&str] = &["string", "vecu32", "boxtok", "opttok"];
 
 /// One definition history drawn from the PRNG (swarm style: the type mix, the strategy mix, the
 /// sizes and the fragment selection are themselves drawn per definition).
+/// Gap-reuse histories: every variant removes a few fields and adds fields of the same sizes, so
+/// that freed bytes are refilled again and again (where the bookkeeping of gaps, list order and
+/// offsets matters most); zero-size fields are sprinkled in, preferably early.
+fn gen_gap_reuse_plan(rng: &mut Rng, name: &str, opts: &SwarmOpts) -> Plan {
+    let n_variants = rng.range(3, opts.max_variants.max(3));
+    let clone = rng.chance(2, 3);
+    let serde = rng.chance(1, 2);
+    let strat_mode = rng.below(4);
+    let mut reqs = Vec::new();
+    let mut live: Vec<(usize, &'static str)> = Vec::new();
+    let mut n_fields = 0usize;
+    let sized: Vec<&'static str> = PLAIN.iter().chain(TOKENS.iter()).chain(HEAP.iter()).copied().collect();
+    let mut push = |reqs: &mut Vec<Req>, live: &mut Vec<(usize, &'static str)>, ty: &'static str, rng: &mut Rng| {
+        let e = type_entry(ty);
+        reqs.push(Req::Add { ty: ty.to_string(), uninit: e.copy && rng.chance(1, 3) });
+        live.push((n_fields, ty));
+        n_fields += 1;
+    };
+    if opts.zst && rng.chance(2, 3) {
+        push(&mut reqs, &mut live, *rng.pick(ZSTS), rng);
+    }
+    for _ in 0..rng.range(3, 6) {
+        if opts.zst && rng.chance(1, 6) {
+            push(&mut reqs, &mut live, *rng.pick(ZSTS), rng);
+        }
+        push(&mut reqs, &mut live, *rng.pick(&sized), rng);
+    }
+    let close = |rng: &mut Rng| match strat_mode {
+        0 | 1 => Strategy::Simple,
+        2 => Strategy::Basic,
+        _ => *rng.pick(&[Strategy::Simple, Strategy::Simple, Strategy::Basic, Strategy::Append]),
+    };
+    reqs.push(Req::Close { strategy: close(rng) });
+    for _ in 1..n_variants {
+        let candidates: Vec<usize> = (0..live.len()).filter(|&i| !type_entry(live[i].1).zst).collect();
+        let n_remove = if candidates.is_empty() { 0 } else { rng.range(1, 2.min(candidates.len())) };
+        let mut removed_sizes = Vec::new();
+        for _ in 0..n_remove {
+            let candidates: Vec<usize> = (0..live.len()).filter(|&i| !type_entry(live[i].1).zst).collect();
+            if candidates.is_empty() {
+                break;
+            }
+            let i = candidates[rng.below(candidates.len())];
+            let (f, ty) = live.remove(i);
+            removed_sizes.push(type_entry(ty).size);
+            reqs.push(Req::Remove { field: f });
+        }
+        // refill with the same sizes (or smaller), then maybe one more field
+        for size in removed_sizes {
+            let fits: Vec<&'static str> = sized.iter().copied().filter(|t| type_entry(t).size <= size).collect();
+            let same: Vec<&'static str> = sized.iter().copied().filter(|t| type_entry(t).size == size).collect();
+            let pool = if !same.is_empty() && rng.chance(2, 3) { same } else { fits };
+            if !pool.is_empty() && live.len() < opts.max_live_fields {
+                push(&mut reqs, &mut live, *rng.pick(&pool), rng);
+            }
+        }
+        if live.len() < opts.max_live_fields && rng.chance(1, 2) {
+            push(&mut reqs, &mut live, *rng.pick(&sized), rng);
+        }
+        reqs.push(Req::Close { strategy: close(rng) });
+    }
+    Plan { name: name.to_string(), clone, serde, reqs }
+}
+
 pub fn gen_plan(rng: &mut Rng, name: &str, opts: &SwarmOpts) -> Plan {
+    if rng.chance(1, 3) {
+        return gen_gap_reuse_plan(rng, name, opts);
+    }
     let n_variants = match rng.below(8) {
         0 => 1,
         1 | 2 => 2,
@@ -298,6 +390,8 @@ pub fn corpus() -> Vec<Plan> {
         p("odd_sizes", true, false, vec![add("toka3"), add("toka16"), add("u8x3"), add("toka64"), add("u16x3"), close(Simple), rm(1), rm(3), add("p12"), add("u64x3"), add("toka3"), close(Simple), rm(0), add("tokah"), add("u8"), close(Simple)]),
         // the history of DESIGN.md 1.6: a zero-size datum placed by `simple`, then `basic`
         p("zst_mixed", false, false, vec![add("u64"), add("u64x0"), add("u16"), add("toka8"), close(Basic), rm(0), add("unit"), add("u16x3"), close(Append), rm(2), add("u8"), add("u64x0"), add("u16x3"), close(Basic)]),
+        // a zero-size datum placed by `simple` (listed out of address order), a later variant closed by `basic`
+        p("zst_simple_then_basic", true, false, vec![add("unit"), add("toka16"), add("string"), add("u8"), close(Simple), rm(2), rm(3), add("u64x3"), addu("u8"), add("u128"), close(Simple), rm(5), rm(1), add("u8"), add("opttok"), close(Basic)]),
         // zero-size tokens with drop glue next to real data
         p("zst_tokens", true, true, vec![add("tokaz"), add("toka8"), add("tokaz"), close(Simple), rm(0), add("unit"), add("string"), close(Simple), rm(1), add("tokaz"), close(Simple)]),
         // append-only strategies over several variants
@@ -306,6 +400,9 @@ pub fn corpus() -> Vec<Plan> {
         p("heap_only", true, true, vec![add("string"), add("vecu32"), add("boxtok"), add("opttok"), close(Simple), rm(0), rm(2), add("string"), add("tokah"), close(Simple), rm(1), add("vecu32"), close(Simple)]),
         // single variant, single field
         p("single", true, true, vec![add("toka8"), close(Simple)]),
+        // wide records (several hundred bytes): size thresholds in generated code
+        p("wide", true, true, vec![add("u64x16"), add("toka64"), add("string"), add("toka8"), addu("u64x16"), add("tokah"), close(Simple), rm(1), add("toka16"), add("vecu32"), add("toka64"), close(Simple), rm(0), rm(2), add("boxtok"), addu("u64x3"), close(Simple)]),
+        p("wide_tokens", true, true, vec![add("toka64"), add("toka64"), add("toka64"), add("tokb8"), close(Append), add("toka64"), add("opttok"), rm(1), close(Simple), rm(0), add("u64x16"), add("toka3"), close(Basic)]),
         // zero-size only
         p("zst_only", true, true, vec![add("unit"), add("tokaz"), close(Simple), add("u64x0"), rm(0), close(Simple)]),
     ]
